@@ -334,6 +334,33 @@ func init() {
 			})
 			defer verifhook.Set(nil)
 		}
+		// wedge=1: replay of the end-of-run deadlock schedule — a due progress tick is held at raterun.dispatch
+		// until the controller sits between the nested read locks of a final rendering (result.nested)
+		if p["wedge"] == "1" {
+			mainAtNested := make(chan struct{})
+			var onceN, onceD sync.Once
+			var dispatchParked atomic.Bool
+			verifhook.Set(func(point string) {
+				switch point {
+				case "raterun.dispatch":
+					onceD.Do(func() {
+						dispatchParked.Store(true)
+						select {
+						case <-mainAtNested:
+						case <-time.After(2500 * time.Millisecond):
+						}
+					})
+				case "result.nested":
+					if dispatchParked.Load() {
+						onceN.Do(func() {
+							close(mainAtNested)
+							time.Sleep(60 * time.Millisecond) // let the tick request the write lock
+						})
+					}
+				}
+			})
+			defer verifhook.Set(nil)
+		}
 		t0 := time.Now()
 		type doRes struct {
 			res *run.Result
